@@ -512,6 +512,16 @@ def getitem(it, fr, o, k):
                 if eng.fork(key_eq(it, fr, k, key)):
                     return val
             raise PyExc(KeyError('<symbolic>'))
+    if isinstance(o, SBytes) and unrollable(o) and isinstance(k, int) and not isinstance(k, bool):
+        ln = bytes_len(it, o)
+        if k >= 0:
+            if k < cap(o) and eng.fork(ln > k):
+                return SInt(byte_at(o, k))
+            raise PyExc(IndexError('index out of range'))
+        for i in range(cap(o)):
+            if eng.fork(ln + k == i):
+                return SInt(byte_at(o, i))
+        raise PyExc(IndexError('index out of range'))
     if isinstance(o, SStr):
         if isinstance(k, int) and not isinstance(k, bool) or isinstance(k, bool):
             k = int(k)
@@ -586,6 +596,19 @@ def getslice(it, fr, o, lo, hi, step):
     raise Unsupported('slice of symbolic value')
 
 
+def _same_json(it, old, v):
+    """a store of a value indistinguishable (type-exact) from the one already there is not an observable change"""
+    if old is v:
+        return True
+    if isinstance(old, (dict, list, SDict, SList)) or isinstance(v, (dict, list, SDict, SList)):
+        return False
+    try:
+        from . import stubs
+        return it.eng.fork(stubs.json_eq(it, old, v))
+    except (Unsupported, TypeError, AttributeError, z3.Z3Exception):
+        return False
+
+
 def to_sdict(d):
     return SDict([[True, k, v] for k, v in d.items()])
 
@@ -595,12 +618,14 @@ def setitem(it, fr, o, k, v):
     eng = it.eng
     if isinstance(o, SDict):
         check_hashable(k)
-        _mutation(it, o, 'dict item store')
         for slot in o.slots:
             p, key = slot[0], slot[1]
             if eng.fork(z3.And(zb(p), key_eq(it, fr, k, key))):
+                if not (getattr(o, 'frozen', False) and _same_json(it, slot[2], v)):
+                    _mutation(it, o, 'dict item store')
                 slot[2] = v
                 return None
+        _mutation(it, o, 'dict item store')
         o.slots.append([True, k, v])
         return None
     if isinstance(o, dict):
@@ -615,7 +640,8 @@ def setitem(it, fr, o, k, v):
                 it.shadow_globals[gc[id(o)]] = n
             setitem(it, fr, n, k, v)
             return n
-        _mutation(it, o, 'dict item store')
+        if not (getattr(o, 'frozen', False) and k in o and _same_json(it, o[k], v)):
+            _mutation(it, o, 'dict item store')
     if isinstance(o, SList):
         _mutation(it, o, 'list item store')
         if isinstance(k, int) and 0 <= k < len(o.items) and eng.fork(o.n > k):
